@@ -212,6 +212,7 @@ type e3Scenario struct {
 	Canceller  bool
 	Reuse      bool
 	NoSrcFault bool
+	Twin       bool // two overlapping calls on one Runtime
 }
 
 func e3Scenarios() []e3Scenario {
@@ -227,6 +228,8 @@ func e3Scenarios() []e3Scenario {
 		{Name: "multipart-cancelled", Files: 1, Canceller: true, NoSrcFault: true},
 		{Name: "readcloser-payload", Payload: "readcloser", Reuse: true},
 		{Name: "json-payload-cancelled", Payload: "json", Canceller: true},
+		{Name: "two-overlapping-uploads", Fields: true, Files: 1, Twin: true, NoSrcFault: true},
+		{Name: "two-overlapping-uploads-reuse-faults", Files: 1, Twin: true, Reuse: true},
 	}
 }
 
@@ -256,6 +259,8 @@ type e3World struct {
 	returned   bool
 	readerRan  bool
 	readerMode int
+	twin       *e3World
+	label      string
 }
 
 func newE3World(sc e3Scenario) *e3World {
@@ -265,6 +270,16 @@ func newE3World(sc e3Scenario) *e3World {
 	}
 	if sc.Payload == "reader" || sc.Payload == "readcloser" {
 		w.payload = &upFile{name: "payload", data: []byte("payload-bytes"), noFault: sc.NoSrcFault}
+	}
+	if sc.Twin {
+		t := sc
+		t.Twin = false
+		w.twin = newE3World(t)
+		w.twin.label = "second call: "
+		for i, f := range w.twin.files {
+			f.name = fmt.Sprintf("dir/g%d.txt", i+1)
+			f.data = []byte(strings.Repeat(string(rune('p'+i)), 4))
+		}
 	}
 	return w
 }
@@ -284,6 +299,20 @@ func (w *e3World) body() {
 	if sc.Reuse {
 		rt.EnableConnectionReuse()
 	}
+	w.launch(rt, "caller", nil)
+	if w.twin != nil {
+		// a second, overlapping call on the SAME Runtime with its own files and its own transport
+		var tr http.RoundTripper = w.twin.tr
+		if sc.Reuse {
+			tr = client.KeepAliveTransport(tr)
+		}
+		w.twin.launch(rt, "caller2", &http.Client{Transport: tr})
+	}
+}
+
+// launch starts one call as its own thread (plus its canceller).
+func (w *e3World) launch(rt *client.Runtime, name string, own *http.Client) {
+	sc := w.sc
 	ctx, cancel := context.WithCancel(context.Background())
 	op := &runtime.ClientOperation{
 		ID: "upload", Method: "POST", PathPattern: "/up", Schemes: []string{"http"},
@@ -349,18 +378,29 @@ func (w *e3World) body() {
 			return errAuth
 		})
 	}
-	verifrt.GoNamed("caller", func() {
+	op.Client = own
+	verifrt.GoNamed(name, func() {
 		w.res, w.err = rt.Submit(op)
 		w.returned = true
 	})
 	if sc.Canceller {
-		verifrt.GoNamed("canceller", cancel)
+		verifrt.GoNamed("canceller-of-"+name, cancel)
 	}
 	_ = cancel
 }
 
-// judge evaluates the invariants of C12 on one finished execution.
+// judge evaluates the invariants of C12 on one finished execution (both calls of a twin scenario).
 func (w *e3World) judge(x *verifrt.Exec) (class, what string) {
+	class, what = w.judgeOne(x)
+	if class == "" && w.twin != nil {
+		if c2, w2 := w.twin.judgeOne(x); c2 != "" {
+			return c2, w.twin.label + w2
+		}
+	}
+	return class, what
+}
+
+func (w *e3World) judgeOne(x *verifrt.Exec) (class, what string) {
 	sc := w.sc
 	sfx := ""
 	if sc.Fault == "auth" || sc.Fault == "auth-getbody" || sc.Fault == "basepath" {
